@@ -26,6 +26,8 @@ const (
 	kErr                // error
 	kString             // string (only as argument of fmt.Errorf & co: never evaluated)
 	kByte               // byte (element of a byte array) -> Z
+	kList               // loops mode: slice / array of elem (list of the element's Coq type)
+	kKeccak             // loops mode: sha3 sponge state (KeccakStream.kstate)
 )
 
 type typ struct {
@@ -37,6 +39,9 @@ type typ struct {
 	ptr    bool        // kStruct: pointer to struct
 	bigVal bool        // kZ: big.Int as a value type (type PrivKeyScalar big.Int)
 	iface  bool        // kSlice: an interface result (driver.Value) that is given a []byte
+	elem   *typ        // kList: element type
+	gold   bool        // kFe / kByte-like: an ffg.Element (Goldilocks modulus) / uint64 word
+	natInt bool        // kInt element of a list: the Coq element type is nat
 }
 
 type structDesc struct {
@@ -57,6 +62,9 @@ var (
 	tErr    = &typ{k: kErr}
 	tString = &typ{k: kString}
 	tByte   = &typ{k: kByte}
+	tFg     = &typ{k: kFe, gold: true}   // *ffg.Element: value in [0, pg)
+	tU64    = &typ{k: kByte, gold: true} // uint64 -> Z
+	tNatInt = &typ{k: kInt, natInt: true}
 
 	sdPoint = &structDesc{name: "Point", coq: "point", fields: []string{"X", "Y"}, ftyp: []*typ{tZ, tZ}}
 	sdProj  = &structDesc{name: "PointProjective", coq: "ppoint", fields: []string{"X", "Y", "Z"}, ftyp: []*typ{tFe, tFe, tFe}}
@@ -86,6 +94,13 @@ func (t *typ) coq() string {
 		return "list Z"
 	case kIface:
 		return "scan_src"
+	case kList:
+		if t.elem.k == kInt && t.elem.natInt {
+			return "list nat"
+		}
+		return "list " + par(t.elem.coq())
+	case kKeccak:
+		return "KeccakStream.kstate"
 	}
 	return "?"
 }
@@ -101,6 +116,10 @@ func (t *typ) String() string {
 			return "*" + t.sd.name
 		}
 		return t.sd.name
+	case kList:
+		return "[]" + t.elem.String()
+	case kKeccak:
+		return "sha3 state"
 	}
 	return [...]string{"*big.Int", "*ff.Element", "bool", "int", "", "", "[]byte", "", "[]*big.Int",
 		"interface{}", "error", "string", "byte"}[t.k]
@@ -133,6 +152,9 @@ func (p *pkg) resolveType(e ast.Expr) *typ {
 		if isSel(e.X, "ff", "Element") {
 			return tFe
 		}
+		if isSel(e.X, "ffg", "Element") {
+			return tFg
+		}
 		in := p.resolveType(e.X)
 		switch in.k {
 		case kArr:
@@ -155,7 +177,15 @@ func (p *pkg) resolveType(e ast.Expr) *typ {
 			if st, ok := e.Elt.(*ast.StarExpr); ok && isSel(st.X, "big", "Int") {
 				return tZList
 			}
-			p.failAt(e, "unsupported slice type")
+			// (loops mode) slices of other element types
+			if id, ok := e.Elt.(*ast.Ident); ok && id.Name == "int" {
+				return tListOf(tNatInt)
+			}
+			return tListOf(p.resolveType(e.Elt))
+		}
+		if id, ok := e.Elt.(*ast.Ident); ok && id.Name == "uint64" {
+			// [N]uint64 with a constant N: a value (copied on assignment)
+			return &typ{k: kList, elem: tU64, n: -1}
 		}
 		if id, ok := e.Elt.(*ast.Ident); ok && id.Name == "byte" {
 			if bl, ok := e.Len.(*ast.BasicLit); ok && bl.Kind == token.INT {
@@ -170,6 +200,8 @@ func (p *pkg) resolveType(e ast.Expr) *typ {
 		if e.Methods == nil || len(e.Methods.List) == 0 {
 			return tIface
 		}
+	case *ast.Ellipsis: // variadic parameter
+		return tListOf(p.resolveType(e.Elt))
 	case *ast.SelectorExpr:
 		if isSel(e, "big", "Int") {
 			return tBigVal
@@ -190,6 +222,8 @@ func (p *pkg) resolveType(e ast.Expr) *typ {
 			return tErr
 		case "string": // a string is its bytes
 			return tSlice
+		case "uint64":
+			return tU64
 		}
 		if t, ok := p.named[e.Name]; ok {
 			return t
